@@ -325,7 +325,7 @@ ROUND8 = {
     "C05": "Peak direction taken on the spectrum as stored (shared with C02); the native watershed-line reassignment double-buffers (shared with C04); no width from the axis extent.",
     "C09": "Band-limit validation tests limits with `is not None`, never by truthiness.",
     "C10": "No hidden absolute tolerance (np.isclose / allclose without atol=0) on spectrum-derived quantities.",
-    "C11": "Converters map the stored density linearly and unconditionally (no value mask, no metadata guard).",
+    "C11": "Converters map the stored density linearly and unconditionally (no value mask, no metadata guard); the Octopus row format has floating-point conversions only.",
     "C12": "Density / coordinate conversions of the model converters are unconditional (presence of variables and arguments aside) and linear.",
     "C13": "Readers never fold a longitude read from a file modulo 360.",
     "C14": "The longitude-convention branch of the selectors is chosen from the dataset's longitudes.",
